@@ -17,8 +17,9 @@ namespace NV.C11
     enabled at its turn exactly when its countdown expires, late joiners not in this round, nothing after a
     disable / destruct, an error switches off only the failing object and abandons the round), every
     query_heart_beat() / heart_beats() answer is right, and no crash event occurs. -/
-theorem model_satisfies_spec (sc : Scripts) (cmds : List Cmd) : judgeEv (events sc cmds) = [] := by
-  have h := sim_runCmds sc cmds {} {} idle_init
+theorem model_satisfies_spec (sc : Scripts) (cmds : List Cmd) (hk : Nat → List Op := fun _ => []) :
+    judgeEv (events sc cmds hk) = [] := by
+  have h := sim_runCmds sc cmds { hooks := hk } {} (idle_init hk)
   unfold judgeEv events
   rw [h.2.2.2]; rfl
 
@@ -30,14 +31,15 @@ example : judgeEv (events (fun o k => if o = 2 ∧ k = 0 then [.shb 3 0, .shb 2 
     access outside `[0, num_hb_objs)`, every append beyond `max_heart_beats` and a round whose loop would not
     terminate into the outcome `crashed`; it is never reached, whatever the heart_beat functions remove, add or
     destruct while the round is running. -/
-theorem hb_index_in_bounds (sc : Scripts) (cmds : List Cmd) : (runCmds sc {} cmds).1.crashed = false :=
-  (sim_runCmds sc cmds {} {} idle_init).1.ok
+theorem hb_index_in_bounds (sc : Scripts) (cmds : List Cmd) (hk : Nat → List Op := fun _ => []) :
+    (runCmds sc { hooks := hk } cmds).1.crashed = false :=
+  (sim_runCmds sc cmds { hooks := hk } {} (idle_init hk)).1.ok
 
 /-- the state correspondence of the simulation holds after every history: the heart-beat array is exactly the
     oracle's service order, nothing is lost or duplicated by the index compensation -/
-theorem hbs_is_service_order (sc : Scripts) (cmds : List Cmd) :
-    (runCmds sc {} cmds).1.hbs = ((runCmds sc {} cmds).2.foldl judge1 {}).all :=
-  (sim_runCmds sc cmds {} {} idle_init).1.hbs
+theorem hbs_is_service_order (sc : Scripts) (cmds : List Cmd) (hk : Nat → List Op := fun _ => []) :
+    (runCmds sc { hooks := hk } cmds).1.hbs = ((runCmds sc { hooks := hk } cmds).2.foldl judge1 {}).all :=
+  (sim_runCmds sc cmds { hooks := hk } {} (idle_init hk)).1.hbs
 
 /-! ### Clauses, stated on the reference semantics that the model is proved to implement -/
 
